@@ -247,6 +247,45 @@ def check(case, rec=None):
                     if len(ix2.gas) != ng or not np.array_equal(np.asarray(ix2.gas), hist):
                         fails.append(fail("histogram", "fight_over_peaks after assigntorings: per-grain counts differ "
                                           "from the histogram of the labels", entry="fight_over_peaks/rings"))
+                    # the same through saveindexing on an indexer that read a g-vector file (the competition runs
+                    # inside it, then one report per grain is written): the object afterwards holds the orientations
+                    # it was given and their assignment
+                    if not fails and case["seed"] % 2 == 0:
+                        import os, io, contextlib
+                        tmpd = os.environ.get("VERIF_TMP", ".")
+                        fgve = os.path.join(tmpd, "c07_%d.gve" % os.getpid())
+                        fidx = os.path.join(tmpd, "c07_%d.idx" % os.getpid())
+                        with open(fgve, "w") as fh:
+                            fh.write("%r %r %r %r %r %r P\n" % tuple(float(x) for x in case["cell"]))
+                            fh.write("# wavelength = 0.05\n# wedge = 0.0\n# ds h k l\n")
+                            fh.write("#  xr yr zr xc yc ds eta omega\n")
+                            for row in gv:
+                                fh.write("%r %r %r 0.0 0.0 %r 10.0 20.0\n" % (float(row[0]), float(row[1]), float(row[2]),
+                                                                            float(np.sqrt((row * row).sum()))))
+
+                        def viafile():
+                            ix3 = indexing.indexer(hkl_tol=tol, ds_tol=ds_tol)
+                            ix3.readgvfile(fgve, quiet=True)
+                            ix3.assigntorings()
+                            ix3.ubis = [u.copy() for u in ubis]
+                            ix3.saveindexing(fidx)
+                            return ix3
+                        with contextlib.redirect_stdout(io.StringIO()), np.errstate(all="ignore"):
+                            ok, ix3 = guard(viafile)
+                        for f_ in (fgve, fidx):
+                            if os.path.exists(f_):
+                                os.remove(f_)
+                        if not ok:
+                            fails.append(exc_failure("readgvfile / saveindexing", ix3))
+                        elif not np.array_equal(np.asarray(ix3.gv), gv):
+                            raise RuntimeError("harness: g-vectors changed by the text file")
+                        elif any(np.abs(np.asarray(a_) - b_).max() > 0 for a_, b_ in zip(ix3.ubis, ubis)):
+                            fails.append(fail("inputs", "saveindexing changed the orientation matrices held by the indexer "
+                                              "(by up to %.3g): labels and errors kept on the object no longer belong to "
+                                              "them" % max(np.abs(np.asarray(a_) - b_).max() for a_, b_ in zip(ix3.ubis, ubis)),
+                                              entry="saveindexing"))
+                        else:
+                            compare("indexer.saveindexing (competition inside)", ix3.ga, ix3.drlv2, ref, 2.0, fails)
                     if rec is not None:
                         rec.note("off_ring_peaks_in_competition", int((np.asarray(ix2.ra) < 0).sum()), "sum")
             elif rec is not None:
